@@ -12,10 +12,10 @@ import (
 
 func init() {
 	register(&core.Property{
-		ID:    "C03",
-		Title: "Requests reach exactly the ready endpoints that Ingress and Service designate",
+		ID:          "C03",
+		Title:       "Requests reach exactly the ready endpoints that Ingress and Service designate",
 		Explanation: "This property is mainly dynamic (it quantifies over requests evaluated by HAProxy). Decided statically, as necessary conditions: (1) not-ready and terminating endpoints reach a backend only under the drain-support guard and always with weight 0; ready/not-ready are split by the Endpoints `Addresses` / EndpointSlice `Ready` condition and the service-port matching tables; (2) a redeclared host/path is rejected before it is linked (the first Ingress, in creation order, wins), and the Ingress/route lists are sorted by creation time then name before use; (3) the HTTPS map receives only hosts with TLS and without ssl-passthrough; (4) map keys of begin rules are lower-cased consistently with the frontend's lower-casing (shared with C04); (5) a declaration skipped for a conflict on the default host stays linked (shared with C01); (6) the template's fallback chain is req.backend, then the default host's backend, then default_backend / _error404.",
-		NotDecided: []string{"evaluation of maps and ACLs as HAProxy would for concrete requests", "path matching semantics (C04 decides the ordering tables only)"},
+		NotDecided:  []string{"evaluation of maps and ACLs as HAProxy would for concrete requests", "path matching semantics (C04 decides the ordering tables only)"},
 		Rules: []*core.Rule{
 			{ID: "C03.drain", Floor: 4, Run: c03Drain, Doc: "Every endpoint built from the notReady result of CreateEndpoints or from GetTerminatingPods is created under the true edge of the drain-support option and gets Weight = 0; converters that do not support draining discard the second result."},
 			{ID: "C03.ready-split", Floor: 4, Run: c03ReadySplit, Doc: "createEndpoints puts Addresses in ready and NotReadyAddresses in notReady; createEndpointSlices puts an endpoint in ready iff Ready == nil || *Ready; matchPort = TCP && (unnamed || names equal); FindServicePort matches name or target port first, numeric port second."},
@@ -179,7 +179,9 @@ func c03ReadySplit(c *core.Ctx) {
 		tableRule(c, "converters/utils.matchPort", fn, 0, matchers{
 			"notTCP":  has(`.Protocol != "TCP")`),
 			"unnamed": has(`svcPort.Name == "")`),
-			"sameName": func(k string) bool { return strings.Contains(k, "svcPort.Name == ") && strings.Contains(k, "epPort.Name") },
+			"sameName": func(k string) bool {
+				return strings.Contains(k, "svcPort.Name == ") && strings.Contains(k, "epPort.Name")
+			},
 		}, func(v map[string]bool) bool { return !v["notTCP"] && (v["unnamed"] || v["sameName"]) })
 	}
 	if fn := c.Fn("converters/utils", "FindServicePort"); fn != nil {
